@@ -3,6 +3,7 @@ package rules
 import (
 	"fmt"
 	"go/token"
+	"go/types"
 	"sort"
 	"strings"
 
@@ -19,7 +20,8 @@ func init() {
 			"start marker cannot occur outside a string in valid JSON are tolerated; C17.token - in the scanner's split function the consumed length is pos + len(start) + extra + len(end), a non-comment " +
 			"region is emitted whole (data[:advance]) and a comment region is dropped whole (data[:pos]), the end marker is searched in the bytes after the start marker, and 'need more data' is only " +
 			"answered when not at end of input (or the input is empty); C17.escape - necessary condition for strings being closed by an unescaped quote: the computation of a region's end examines the " +
-			"backslash (some module function reachable from the split function compares a byte with 0x5C or searches for a constant containing it). " +
+			"backslash (some module function reachable from the split function compares a byte with 0x5C or searches for a constant containing it); every such comparison is the condition of a branch of a forward scan whose taken edge " +
+			"skips the next byte unconditionally (no look-behind from a candidate end mark, which ignores the parity of a run of backslashes), and that scan is enabled, at every call from the split function, exactly for the rules not marked as comments. " +
 			"Not decided: semantic transparency for every JSON value, decoration and read segmentation (equivalence of a hand-written scanner with the JSON grammar).",
 		Assume: []string{"bufio.Scanner calls the split function with a growing prefix of the remaining input and honours (advance, token)", "encoding/json"},
 		Run:    runC17,
@@ -144,7 +146,7 @@ func runC17(c *Ctx) {
 	P, R := c.P, c.R
 	R.Require("C17.tables", 4)
 	R.Require("C17.token", 6)
-	R.Require("C17.escape", 1)
+	R.Require("C17.escape", 3)
 	R.Require("C17.read", 1)
 	for _, f := range P.ModuleFuncs("json") {
 		R.Funcs[core.QualName(f)] = true
@@ -445,6 +447,39 @@ func runC17(c *Ctx) {
 			}
 		})
 	}
+	// a backslash is only ever looked at as the condition of the scan's own branch (checked below): a test that looks
+	// back from a candidate end mark ("is the byte before it a backslash?") ignores the parity of the run of backslashes
+	for fn := range reach {
+		if !core.InModule(fn) {
+			continue
+		}
+		n := 0
+		core.EachInstr(fn, func(in ssa.Instruction) {
+			bo, ok := in.(*ssa.BinOp)
+			if !ok || (bo.Op != token.EQL && bo.Op != token.NEQ) {
+				return
+			}
+			isBS := false
+			for _, op := range []ssa.Value{bo.X, bo.Y} {
+				if k, ok := core.ConstInt(op); ok && k == 0x5c {
+					isBS = true
+				}
+			}
+			if !isBS {
+				return
+			}
+			n++
+			branch := false
+			for _, r := range *bo.Referrers() {
+				if _, isIf := r.(*ssa.If); isIf {
+					branch = true
+				}
+			}
+			R.Check(branch, "C17.escape", fmt.Sprintf("json|%s|backslash-test#%d|is-the-scan-branch", core.FuncName(fn), n), P.InstrPos(bo),
+				"the byte is compared with a backslash as the condition of a branch of the scan",
+				"a byte is compared with a backslash outside the scan's own branch (a look-behind from a candidate end mark, a flag computed for later): whether a mark is escaped depends on the parity of the backslashes before it (\"C:\\\\\" ends at its quote), which only a forward scan that skips the escaped byte gets right", nil)
+		})
+	}
 	// the backslash escapes the byte after it whatever that byte is (JSON: \\ is one escaped backslash, so in "C:\\" the
 	// quote after it closes the string): on the branch taken for a backslash the scan position moves on by two with no
 	// further test on the way back to the loop head
@@ -519,6 +554,113 @@ func runC17(c *Ctx) {
 			R.Check(skipOK, "C17.escape", "json|"+core.FuncName(fn)+"|backslash-skips-the-next-byte-unconditionally", P.InstrPos(iff),
 				"a backslash makes the scan skip the byte after it, whatever it is",
 				why+": an escaped backslash before the closing quote (\"C:\\\\\") leaves the string open and the rest of the document is mis-scanned", nil)
+		}
+	}
+	// the escape is honoured in quoted text and nowhere else: a backslash inside a comment escapes nothing (/* C:\tmp\*/
+	// ends at its end mark).  The scan's backslash branch runs under a boolean; that boolean is, at every call from the
+	// split function, false exactly for the rules marked as comments (the polarity is followed through negations and
+	// through the helper's own guard).
+	for fn := range reach {
+		if !core.InModule(fn) || fn.Blocks == nil {
+			continue
+		}
+		for _, b := range fn.Blocks {
+			if len(b.Instrs) == 0 {
+				continue
+			}
+			iff, ok := b.Instrs[len(b.Instrs)-1].(*ssa.If)
+			if !ok {
+				continue
+			}
+			bo, ok := iff.Cond.(*ssa.BinOp)
+			if !ok || (bo.Op != token.EQL && bo.Op != token.NEQ) {
+				continue
+			}
+			if k, isK := core.ConstInt(bo.Y); !isK || k != 0x5c {
+				continue
+			}
+			key := "json|" + core.FuncName(fn) + "|escape-applies-to-quoted-text-only"
+			// the boolean guards of the scan
+			type bguard struct {
+				v   ssa.Value
+				pol bool // the scan runs when v == pol
+			}
+			var gs []bguard
+			for _, g := range core.Guards(b) {
+				cond, pol := g.Cond, g.Pol
+				for {
+					if u, ok := cond.(*ssa.UnOp); ok && u.Op == token.NOT {
+						cond, pol = u.X, !pol
+						continue
+					}
+					break
+				}
+				if bt, ok := cond.Type().Underlying().(*types.Basic); ok && bt.Kind() == types.Bool {
+					if _, isCmp := cond.(*ssa.BinOp); !isCmp {
+						gs = append(gs, bguard{cond, pol})
+					}
+				}
+			}
+			// verdict for a boolean expression e that must equal pol for the scan to run: ok when that means "not a comment"
+			judge := func(e ssa.Value, pol bool) (bool, string) {
+				e = core.StripConv(e)
+				for {
+					if u, ok := e.(*ssa.UnOp); ok && u.Op == token.NOT {
+						e, pol = u.X, !pol
+						continue
+					}
+					break
+				}
+				path := core.Path(e)
+				if !strings.HasPrefix(path, "isComments[") {
+					return false, "the flag that enables the backslash scan is " + path + ", not derived from isComments[index]"
+				}
+				if pol {
+					return false, "the backslash scan runs for the rules marked as comments and not for quoted text"
+				}
+				return true, ""
+			}
+			okAll, why, sites := false, "the backslash scan is not selected by any flag: a backslash would escape the next byte inside comments as well", 0
+			for _, g := range gs {
+				if par, isPar := g.v.(*ssa.Parameter); isPar {
+					idx := -1
+					for i, q := range fn.Params {
+						if q == par {
+							idx = i
+						}
+					}
+					okAll, why = true, ""
+					for caller := range reach {
+						if !core.InModule(caller) {
+							continue
+						}
+						core.EachInstr(caller, func(in ssa.Instruction) {
+							call, isCall := in.(*ssa.Call)
+							if !isCall || call.Call.StaticCallee() != fn || idx >= len(call.Call.Args) {
+								return
+							}
+							sites++
+							if ok, w := judge(call.Call.Args[idx], g.pol); !ok {
+								okAll, why = false, w+" (call at "+P.InstrPos(call)+")"
+							}
+						})
+					}
+					if sites == 0 {
+						okAll, why = false, "no call site of the scan found from the split function"
+					}
+					break
+				}
+				if ok, w := judge(g.v, g.pol); ok {
+					okAll, why, sites = true, "", 1
+					break
+				} else if strings.HasPrefix(core.Path(core.StripConv(g.v)), "isComments[") || strings.HasPrefix(w, "the backslash scan runs") {
+					okAll, why = false, w
+					break
+				}
+			}
+			R.Check(okAll, "C17.escape", key, P.InstrPos(iff),
+				fmt.Sprintf("the backslash scan is enabled exactly for the rules not marked as comments (%d site(s))", sites),
+				why+": JSON escapes exist in string literals only, so a comment whose text ends in a backslash (/* C:\\tmp\\*/) would run on to a later end mark and swallow members, or fail as unterminated", nil)
 		}
 	}
 	sort.Strings(names)
